@@ -7,7 +7,7 @@
    trace-exactly, plus an end-of-run check that no granted reservation is left unused and no item
    is left available to a sink / free machine; not yet theorems for every configuration. *)
 From Coq Require Import List ZArith Bool Arith.
-From FV Require StoreB StoreBInv StoreBProps.
+From FV Require StoreB StoreBInv StoreBProps StoreBWeak World Factory FactoryInv FactoryQueue.
 Import ListNotations.
 
 Theorem C10_no_pending_while_servable :
@@ -27,3 +27,21 @@ Theorem C10_other_bindings_untouched :
     StoreBInv.consumes o x = false -> In x (StoreB.getres (StoreB.step_st s o)).
 Proof. exact StoreBInv.binding_stable. Qed.
 Print Assumptions C10_other_bindings_untouched.
+
+(* without any side condition on the items (unlike the theorems above, which assume pairwise distinct
+   objects): one operation of a buffer / fleet store keeps "no request waits while the store could serve
+   the one next in line", together with the two counting bounds it needs, in EVERY state ... *)
+Theorem C10_no_lost_wakeup_step_unconditional :
+  forall s o, StoreBWeak.WN s -> StoreBWeak.WN (StoreB.step_st s o).
+Proof. exact StoreBWeak.wn_step. Qed.
+Print Assumptions C10_no_lost_wakeup_step_unconditional.
+
+(* ... hence on every Buffer / Fleet edge of every factory configuration after every number of kernel
+   steps: no space request is waiting while the edge could grant it, no retrieval request is waiting
+   while an unreserved item is ready (theories/Factory/FactoryQueue.v, lifted through every process block) *)
+Theorem C10_no_lost_wakeup_in_every_factory :
+  forall nodes edges order n, Forall (fun ed => StoreBWeak.WN (World.est ed)) edges ->
+    forall i ed, nth_error (World.wedges (FactoryInv.iter_fstep n (Factory.mk_world nodes edges order))) i = Some ed ->
+      StoreBProps.NoLost (World.est ed) /\ StoreBWeak.W (World.est ed).
+Proof. exact FactoryQueue.no_lost_wakeup_everywhere. Qed.
+Print Assumptions C10_no_lost_wakeup_in_every_factory.
